@@ -319,6 +319,17 @@ pub fn build_cases(tier: &str, seed: u64, pools: &Pools) -> Vec<Case> {
                 }
             }
         }
+        let hdr = p.header();
+        // (3e) LONG bodies (beyond any size threshold that switches to a table-driven or chunked path) with a few non-ASCII
+        //      or non-alphabet bytes at the start, in the middle and at the end; with and without a matching footer segment
+        for n in [1100usize, 5000, 70_000] {
+            for (at, ch) in [(0usize, "\u{e9}"), (n / 2, "\u{e9}"), (n - 1, "\u{1F980}"), (n / 3, "\u{80}"), (n / 2, "\u{ff}"), (n - 2, "+"), (1023, "\u{20ac}"), (1024, "\u{e9}")] {
+                let at = at.min(n - 1);
+                let body = format!("{}{}{}", "A".repeat(at), ch, "A".repeat(n - 1 - at));
+                push_all_layers(&mut cases, p, &key, format!("{}{}", hdr, body), None, None, "long-body+non-alphabet-byte");
+                push_all_layers(&mut cases, p, &key, format!("{}{}.{}", hdr, body, footer_b64), Some(footer_txt.to_string()), None, "long-body+non-alphabet-byte+matching-footer");
+            }
+        }
         // (4) invalid base64 / padding / odd structure after a correct header
         let hdr = p.header();
         let bodies: Vec<String> = vec![
